@@ -131,7 +131,8 @@ class Recorder:
         }
         d['role'] = self.which_cmd(proc)
         d['bin_same'] = not getattr(proc, '_foreign_exec', False)
-        oc = self.open_checks.get(proc.actor)
+        # a thread started inside a process works on that process' check
+        oc = self.open_checks.get(str(proc.actor).split('.')[0])
         if oc is not None:
             d['check'] = oc['idx']
             oc['inv'].append(d['idx'])
